@@ -351,6 +351,8 @@ bool StepExtended(ScriptExecutionEnvironment& env, CScript::const_iterator& pc, 
         if (stack.size() < 2) return set_error(serror, SCRIPT_ERR_INVALID_STACK_OPERATION);
         vch1 = stacktop(-2);
         vch2 = stacktop(-1);
+        // no stack element is longer than a push may be (the original OP_CAT and BIP347 fail here too)
+        if (vch1.size() + vch2.size() > MAX_SCRIPT_ELEMENT_SIZE) return set_error(serror, SCRIPT_ERR_PUSH_SIZE);
         vch1.insert(vch1.end(), vch2.begin(), vch2.end());
         popstack(stack);
         popstack(stack);
